@@ -16,3 +16,8 @@ package profile
 
 //@ func NewVarGenerator() VarGenerator
 //@   ensures [C07:starts-at-zero] result.counter == 0 && len(result.vars) >= 1
+
+//@ func ParseMessageExpression(rawExpression string) Message
+//@   ensures [C13:no-placeholder-unchanged] len(result.Variables) == 0 ==> result.Expression == rawExpression
+//@   loop 1 /* for _, v := range matches */
+//@     invariant [C13] len(variables) == #i && (len(matches) == 0 ==> expression == rawExpression)
